@@ -16,6 +16,8 @@ pub struct Axis {
     pub map: Option<Vec<(f64, f64)>>,
     pub hidden: bool,
     pub label: Option<String>,
+    /// labels in other languages: (xml:lang, text)
+    pub other_labels: Vec<(String, String)>,
 }
 
 impl Axis {
@@ -255,7 +257,7 @@ impl SynthFont {
             let below = if pos == 0 { 0.0 } else { unit * (1 + ag.below(6)) as f64 };
             let above = if pos == 2 { 0.0 } else { unit * (1 + ag.below(6)) as f64 };
             let d_default = [400.0, 100.0, 0.0][i] + unit * ag.below(4) as f64;
-            let mut axis = Axis { name: aname.to_string(), tag: atag.to_string(), d_default, d_below: below, d_above: above, map: None, hidden: ag.chance(1, 10), label: None };
+            let mut axis = Axis { name: aname.to_string(), tag: atag.to_string(), d_default, d_below: below, d_above: above, map: None, hidden: ag.chance(1, 10), label: None, other_labels: vec![] };
             if p.maps && ag.chance(1, 2) {
                 // user space: monotone nodes; design nodes = min/default/max + optional interior
                 let mut dnodes: BTreeSet<i64> = BTreeSet::new();
@@ -519,7 +521,7 @@ impl SynthFont {
         let mut pg2 = g.fork(4);
         if p.point_axis && !axes.is_empty() && pg2.chance(1, 4) {
             let at = pg2.below(axes.len() + 1);
-            axes.insert(at, Axis { name: "Optical".into(), tag: "opsz".into(), d_default: 12.0, d_below: 0.0, d_above: 0.0, map: None, hidden: false, label: None });
+            axes.insert(at, Axis { name: "Optical".into(), tag: "opsz".into(), d_default: 12.0, d_below: 0.0, d_above: 0.0, map: None, hidden: false, label: None, other_labels: vec![] });
             for s in sources.iter_mut() { s.norm.insert(at, 0.0); }
             for i in instances.iter_mut() { i.norm.insert(at, 0.0); }
         }
@@ -749,7 +751,26 @@ fn gen_naming(f: &mut SynthFont, g: &mut Gen) {
     // axis labels and instance names that coincide with other strings
     let d_fam = f.sources[0].info.family.clone().unwrap_or_default();
     let d_style = f.sources[0].info.style.clone().unwrap_or_default();
+    for a in f.axes.iter_mut() {
+        let c = g.below(4);
+        // labels in other languages, with or without an English one
+        a.other_labels = match c { 0 => vec![("de".to_string(), format!("{}-de", a.name))], 1 => vec![("fr".to_string(), format!("{}-fr", a.name)), ("de".to_string(), format!("{}-de", a.name)), ("ja".to_string(), "\u{592a}\u{3055}".to_string())], _ => vec![] };
+    }
     for a in f.axes.iter_mut() { let c = g.below(6); a.label = match c { 0 => Some(d_fam.clone()), 1 => Some(d_style.clone()), 2 => Some(format!("{} Axis", a.name)), 3 => Some("Weight".to_string()), _ => None }; if a.label.as_deref() == Some("") { a.label = None; } }
+    // names supplied through feature code: a stylistic set with featureNames, registered for several language
+    // systems and with a language-specific lookup, so that the tag has more than one feature record
+    let ex: Vec<String> = f.glyphs.iter().filter(|x| x.export && x.name != ".notdef" && !x.name.contains('"') && x.name.chars().all(|c| c.is_ascii_alphanumeric() || c == '.' || c == '_')).map(|x| x.name.clone()).collect();
+    let fea_variant = g.below(4);
+    if ex.len() >= 2 && fea_variant > 0 {
+        let (a, b) = (&ex[0], &ex[1]);
+        let c = ex.get(2).unwrap_or(a);
+        let mut t = String::from("languagesystem DFLT dflt;\nlanguagesystem latn dflt;\n");
+        if fea_variant >= 2 { t.push_str("languagesystem latn TRK;\n"); }
+        t.push_str(&format!("feature ss01 {{\n  featureNames {{ name \"Fancy alternates\"; }};\n  sub {a} by {b};\n"));
+        if fea_variant == 3 && c != b { t.push_str(&format!("  script latn;\n  language TRK;\n  sub {c} by {b};\n")); }
+        t.push_str("} ss01;\n");
+        f.features = Some(t);
+    }
     let n_inst = f.instances.len();
     for (k, inst) in f.instances.iter_mut().enumerate() {
         let mut ig = g.fork(6);
